@@ -1,5 +1,6 @@
 """C01.b — scan loops and in-place decoders: every subscript on an (array, length) pair is classified
 PROVED / REFUTED / UNKNOWN by the guard analysis (sa/guards.py). Only REFUTED alarms."""
+import re
 from ..facts import S, strip, nodes, is_lit
 from .. import pat as P
 from .. import guards as G
@@ -12,13 +13,41 @@ def run(db, res):
         if not f.blocks:
             continue
         pairs = G.pairs_of(f)
-        if not pairs:
-            continue
+        uns_terms = G.unsigned_terms(f)
         seen = {}
+
+        def fixed_size(x, fs, A):
+            """subscript on an object whose type is an array of constant size N (tables, record members, local buffers)"""
+            bt = (strip(x['base']) or {}).get('t') or ''
+            m = re.search(r'\[(\d+)\]$', bt)
+            if not m:
+                return
+            N = int(m.group(1))
+            t = G.term(x['idx'])
+            key = '%s:%s[%s]' % (name, A, P.K(x['idx']))
+            if not t:
+                verdict, why = 'UNKNOWN', 'index into %s[%d] is not of the form v + c' % (A, N)
+            elif t[0] == '0':
+                verdict, why = ('PROVED', 'constant index %d < %d' % (t[1], N)) if 0 <= t[1] < N else ('REFUTED', 'constant index %d is outside %s[%d]' % (t[1], A, N))
+            else:
+                v, c = t
+                hi, lo = fs.b.get((v, '0')), fs.b.get(('0', v))
+                signed = not G._uns(x['idx']) and v not in uns_terms and not ((strip(x['idx']) or {}).get('t') or '').startswith('enum ')
+                if hi is not None and hi + c <= N - 1 and (not signed or (lo is not None and -lo + c >= 0)):
+                    verdict, why = 'PROVED', '%s <= %d known, array size %d' % (v, hi, N)
+                elif hi is not None and hi + c == N:
+                    verdict, why = 'REFUTED', 'the strongest bound is %s <= %d: index %s + %d can equal the array size %d' % (v, hi, v, c, N)
+                else:
+                    verdict, why = 'UNKNOWN', 'no bound on %s against the array size %d%s' % (v, N, ' (or no lower bound on a signed index)' if hi is not None else '')
+            prev = seen.get((key, x['loc']))
+            rank = {'PROVED': 0, 'UNKNOWN': 1, 'REFUTED': 2}
+            if prev is None or rank[verdict] > rank[prev[0]]:
+                seen[(key, x['loc'])] = (verdict, why)
 
         def on_index(x, fs, b, i):
             A = P.K(x['base'])
             if A not in pairs:
+                fixed_size(x, fs, A)
                 return
             L = pairs[A]
             t = G.term(x['idx'])
@@ -32,6 +61,9 @@ def run(db, res):
                     bnd = fs.b.get((tv[0], L))
                     if c <= -1 and bnd is not None and bnd <= c:
                         seen.setdefault((key, x['loc']), ('PROVED', '%s <= %s + %d known (index counted from the end)' % (tv[0], L, c)))
+                        return
+                    if c <= -1 and bnd is not None and bnd == c + 1:
+                        seen[(key, x['loc'])] = ('REFUTED', 'index counted from the end: only %s <= %s + %d is known, so %s can wrap below 0' % (tv[0], L, bnd, S(x['idx'])))
                         return
                 seen.setdefault((key, x['loc']), ('UNKNOWN', 'index is not of the form v + c'))
                 return
@@ -57,7 +89,7 @@ def run(db, res):
             if prev is None or rank[verdict] > rank[prev[0]]:
                 seen[(key, x['loc'])] = (verdict, why)
         try:
-            G.analyse(f, on_index)
+            G.analyse(f, on_index, db)
         except RecursionError:
             continue
         for (key, loc), (verdict, why) in sorted(seen.items()):
